@@ -18,7 +18,7 @@ except Exception:   # pragma: no cover
 
 class SimStream(_Base):
     __slots__ = ("name", "inbox", "peer", "_closed", "eof", "log", "MAX_IO_CHUNK", "fault", "nwrites",
-                 "nreads", "npolls", "hold", "held")
+                 "nreads", "npolls", "hold", "held", "idle_hook")
 
     def __init__(self, name, max_io_chunk=64000):
         self.name = name
@@ -32,6 +32,7 @@ class SimStream(_Base):
         self.nwrites = 0
         self.nreads = 0
         self.npolls = 0
+        self.idle_hook = None  # no-scheduler mode: called when a poll would wait; returns True if it produced input
         self.hold = False      # when True, writes are parked in `held` until release()
         self.held = []
 
@@ -84,6 +85,14 @@ class SimStream(_Base):
         # timeout may be a number, None, or an rpyc.lib.Timeout
         tl = timeout.timeleft() if hasattr(timeout, "timeleft") else timeout
         if s is None:
+            # no scheduler (single-threaded raw-peer harnesses): nobody else can act, so waiting just lets the
+            # (fallback) virtual clock run out - a peer that never answers
+            if self.idle_hook is not None and self.idle_hook(self):
+                return bool(self.inbox) or self.eof
+            if tl is None:
+                raise S.HarnessError("SimStream.poll would block forever outside a scheduler")
+            if tl > 0:
+                S.sim_time.fallback += tl
             return False
         if tl is not None and tl <= 0:
             return False
